@@ -187,6 +187,32 @@ theorem NoForgeryFrom.not_forgeryIn {A : Aead} {key aad : Bytes} {ctr : Nat} {cl
   rintro ⟨n, ad, c, p, _, hn, hd, hnot⟩
   exact hnot (h n ad c p hd hn)
 
+theorem honest_ad_length (aad : Bytes) : ∀ (cl : List Bytes) (ctr n : Nat) (ad p : Bytes),
+    (n, ad, p) ∈ honest aad ctr cl → ad.length = aad.length + 8 := by
+  intro cl
+  induction cl with
+  | nil => intro _ _ _ _ h; simp [honest] at h
+  | cons c rest ih =>
+    intro ctr n ad p h
+    cases rest with
+    | nil =>
+      simp only [honest, List.mem_singleton, Prod.mk.injEq] at h
+      rw [h.2.1]; simp [be32_length]
+    | cons c' cs' =>
+      simp only [honest, List.mem_cons, Prod.mk.injEq] at h
+      rcases h with h | h
+      · rw [h.2.1]; simp [be32_length]
+      · exact ih (ctr+1) n ad p h
+
+/-- **Remark on `NoForgeryFrom`.**  As a *global* hypothesis it contradicts the round-trip law at the same key:
+    sealing anything under `key` with an associated-data string that is not of the honest shape yields a
+    ciphertext that opens and is not honest.  Hence the reductions are stated per input, with `ForgeryIn` as a
+    disjunct, and the `NoForgeryFrom` forms only under `SoundAt` (no `dec_enc`). -/
+theorem NoForgeryFrom.contradicts_dec_enc {A : Aead} {key aad : Bytes} {ctr : Nat} {cl : List Bytes}
+    (h : NoForgeryFrom A key aad ctr cl) (hde : A.dec key ctr aad (A.enc key ctr aad []) = some []) : False := by
+  have := honest_ad_length aad cl ctr ctr aad [] (h ctr aad _ [] hde (Nat.le_refl _))
+  omega
+
 theorem serialize_congr (A : Aead) (key aad : Bytes) (cf cf' : Nat → Bytes) :
     ∀ (cl : List Bytes) (ctr : Nat), (∀ i, ctr ≤ i → cf i = cf' i) →
       serialize A key aad cf ctr cl = serialize A key aad cf' ctr cl := by
@@ -369,12 +395,12 @@ theorem decLoop_first_write (A : Aead) (key aad : Bytes) (cs fuel ctr : Nat) (in
 
 /-! ### file level: what the entry points do with the header -/
 
-theorem passEncrypt_eq (P : Prims) (pw salt : Bytes) (reads : List Bytes) (hwf : wellFormedReads reads) :
+theorem passEncrypt_eq_serialize (P : Prims) (pw salt : Bytes) (reads : List Bytes) (hwf : wellFormedReads reads) :
     passEncrypt P pw salt reads =
       (encPassMagic ++ salt ++ serialize P.aead (P.kdf pw salt) encPassMagic be64 0 (fileChunks reads), .ok) := by
   simp [passEncrypt, encryptChunks_eq P.aead _ encPassMagic reads hwf]
 
-theorem keyEncrypt_eq (P : Prims) (s spk rs e epk pk msg h : Bytes) (reads : List Bytes) (hwf : wellFormedReads reads)
+theorem keyEncrypt_eq_serialize (P : Prims) (s spk rs e epk pk msg h : Bytes) (reads : List Bytes) (hwf : wellFormedReads reads)
     (hw : Noise.writeMessage P encPrologue s spk rs e epk pk = .ok (msg, h)) :
     keyEncrypt P s spk rs e epk pk reads =
       (encPrologue ++ msg ++ serialize P.aead (P.hkdfFile pk h) [] be64 0 (fileChunks reads), .ok) := by
